@@ -1,5 +1,6 @@
 (* rp.ml — model side of the "registration program + requests" cases (C04, C05, C09, C10, C12) *)
 open Model
+exception Unsupported
 open Sexp
 open Conv
 
@@ -22,6 +23,7 @@ let hop = function
   | L [A "next"] -> ONext
   | L [A "abort"] | L [A "abortthen"] -> OAbort
   | L [A "abs"; c] -> OAbortStatus (z_of_int (int c))
+  | L [A "hijack"] -> raise Unsupported      (* Hijack is outside the writer model: such cases are judged by the twin oracle only *)
   | L [A "isab"] -> OIsAborted
   | L [A "panic"; n] -> OPanic (nat n)
   | L [A "w"; o] -> OEff (EW (wop o))
@@ -108,7 +110,6 @@ let resolve c (routes : rroute list) m p =
        | al -> RNotAllowed al)
 
 (* returns (reg observation, per-request observations) or None when registration panics *)
-exception Unsupported
 let run_model (c : rpcase) =
   match exec_block c.strict c.stmts rinit with
   | Panic -> None
